@@ -28,16 +28,16 @@ func init() {
 type DrawEv struct {
 	Op    string  `json:"op"`
 	N     []int   `json:"n"`
-	NI    int     `json:"ni"` // n if < 2^31 else -1 (convenience for samples)
+	NI    int     `json:"ni"`    // n if < 2^31 else -1 (convenience for samples)
 	Words [][]int `json:"words"` // the tape offered, in order
 	Used  int     `json:"used"`
 	Kind  string  `json:"kind"` // ok | panic | starved
 	Res   []int   `json:"res"`
 	// witnesses (computed by the harness with math/big, *checked* by TLC):
-	QT []int `json:"qT"` // (2^32-1) = qT*n + rT, rT < n
-	RT []int `json:"rT"`
-	Q  []int `json:"q"` // last word = q*n + res
-	Pow2 int `json:"pow2"`
+	QT   []int `json:"qT"` // (2^32-1) = qT*n + rT, rT < n
+	RT   []int `json:"rT"`
+	Q    []int `json:"q"` // last word = q*n + res
+	Pow2 int   `json:"pow2"`
 }
 
 func drawOnce(n uint32, words []uint32) (res uint32, used int, kind string) {
